@@ -59,6 +59,10 @@ func (pass *DisjunctionWithNullToOptional) processDisjunction(visitor *Visitor, 
 	// type | null
 	finalType := nonNullTypes[0]
 	finalType.Nullable = true
+	// `type | null | *value`: the default is held by the disjunction
+	if finalType.Default == nil {
+		finalType.Default = def.Default
+	}
 	finalType.AddToPassesTrail(fmt.Sprintf("DisjunctionWithNullToOptional[%[1]s|null → %[1]s?]", ast.TypeName(finalType)))
 
 	return finalType, nil
